@@ -27,6 +27,7 @@ type Verifier struct {
 	unfolds     map[string]*Sig // F -> F.unfold signature
 	declText    string
 	macroMemo   map[string]bool
+	batteryMemo map[string]*batteryResult
 	qaxioms     []*qaxiom
 	wantModel   bool
 	seed        int
@@ -38,7 +39,7 @@ func newVerifier(tier string) (*Verifier, error) {
 		return nil, err
 	}
 	V := &Verifier{P: P, Tier: tier, usedAsValue: map[string]bool{}, callGraph: map[string]map[string]bool{},
-		missing: map[string]int{}, encs: map[string]*fnEnc{}, encErrs: map[string]error{}, unfolds: map[string]*Sig{}, macroMemo: map[string]bool{}}
+		missing: map[string]int{}, encs: map[string]*fnEnc{}, encErrs: map[string]error{}, unfolds: map[string]*Sig{}, macroMemo: map[string]bool{}, batteryMemo: map[string]*batteryResult{}}
 	V.Timeout = 10 * time.Second
 	if tier == "thorough" {
 		V.Timeout = 120 * time.Second
